@@ -60,14 +60,17 @@ func orderedSiblingDelta(o *lib.Obs, p string) bool {
 func c02Case(r *lib.Run, cfg *lib.Cfg, g *lib.Gen, t ygot.GoStruct, sub *lib.Node, idx int) {
 	full := cfg.Observe(t)
 	want := cfg.ObserveAt(sub.V.Interface().(ygot.GoStruct), sub.Path)
+	// a subtree without any leaf (e.g. only an empty presence container) yields no
+	// update, so nothing on the prefix is created either
+	hasLeaves := len(want.Leaves) > 0
 	for _, kp := range sub.KeyPaths {
-		if l, ok := full.Leaves[kp]; ok {
+		if l, ok := full.Leaves[kp]; ok && hasLeaves {
 			want.Leaves[kp] = l
 		}
 	}
 	// entries on the prefix exist after applying
 	for i := range sub.Path {
-		if len(sub.Path[i].Keys) > 0 {
+		if len(sub.Path[i].Keys) > 0 && hasLeaves {
 			want.Entries[lib.PathString(sub.Path[:i+1])] = true
 		}
 	}
@@ -77,7 +80,7 @@ func c02Case(r *lib.Run, cfg *lib.Cfg, g *lib.Gen, t ygot.GoStruct, sub *lib.Nod
 	}
 	// ordered-list entries on the prefix come out as one-element ordered lists
 	for n := sub; n != nil && n.Parent != nil; n = n.Parent {
-		if n.IsEntry && n.Field.Kind == lib.KOrdered {
+		if n.IsEntry && n.Field.Kind == lib.KOrdered && hasLeaves {
 			lp := append([]lib.PathElem(nil), n.Path...)
 			last := lp[len(lp)-1]
 			lp[len(lp)-1] = lib.PathElem{Name: last.Name, Pos: -1}
